@@ -374,7 +374,8 @@ static void base64_decode(xmpp_ctx_t *ctx,
             *d++ = (word & 0x0000FF00) >> 8;
             *d++ = (word & 0x000000FF);
         }
-        if (hextet > 64)
+        /* all quartets but a padded last one must have been decoded */
+        if (hextet > 64 || (size_t)(d - dbuf) != dlen - dlen % 3)
             goto _base64_decode_error;
         /* handle the remainder */
         switch (dlen % 3) {
